@@ -147,6 +147,21 @@ def const_param_cases():
                 else:
                     cases.append({"id": cid, "program": prog, "expect_class": "error", "expect_stdout": "start\n",
                                   "finding": "const_parameter_not_range_checked" if name.startswith("constparam") else None})
+    # constructor parameters
+    for ty, (lo, hi) in TY.items():
+        if ty == "char":
+            continue
+        tn = ty.replace(" ", "_")
+        pre = "struct Acc_%s { long total; };\nimpl Acc_%s {\n    self(%s start) {\n        self.total = start;\n    }\n}\n" % (tn, tn, ty)
+        for v in [hi, hi + 1, lo] + ([lo - 1] if lo < 0 else [-1]):
+            prog = pre + "int main() {\n    println(\"start\");\n    Acc_%s b(%s);\n    println(b.total);\n    println(\"END\");\n    return 0;\n}\n" % (tn, str(v) if v >= 0 else "0 - %d" % -v)
+            cid = "%s-ctorparam-%d" % (tn, v)
+            if lo <= v <= hi:
+                cases.append({"id": cid, "program": prog, "expect_class": "ok", "expect_stdout": "start\n%d\nEND\n" % v})
+            elif lo == 0 and v < 0:
+                cases.append({"id": cid, "program": prog, "expect_class": "ok", "expect_stdout": "start\n0\nEND\n", "finding": "constructor_parameter_not_range_checked"})
+            else:
+                cases.append({"id": cid, "program": prog, "expect_class": "error", "expect_stdout": "start\n", "finding": "constructor_parameter_not_range_checked"})
     return cases
 
 
